@@ -39,6 +39,20 @@
 using namespace Teakra;
 using vlayout::NREG;
 
+// software trigger word: mostly one source, sometimes several raised by the same write
+static u16 soft_trigger(vh::Rng& rng, bool multi = false) {
+    static const unsigned src[] = {3, 14, 9, 10, 11};
+    if (multi) {        // several vectored sources raised by one write (see `multi` in the program generator)
+        static const u16 sets[] = {(1u << 3) | (1u << 14), (1u << 3) | (1u << 9), (1u << 9) | (1u << 14), (1u << 3) | (1u << 9) | (1u << 14)};
+        return sets[rng.below(4)];
+    }
+    if (rng.chance(3, 5)) return (u16)(1u << (rng.chance(1, 2) ? 3 : 14));
+    u16 w = 0;
+    int n = 2 + rng.below(3);
+    for (int i = 0; i < n; ++i) w |= (u16)(1u << src[rng.below(5)]);
+    return w;
+}
+
 struct WriteLog : VerifMemObserver {
     std::map<u32, u16> written;
     bool oob = false;
@@ -328,17 +342,25 @@ static Prog make_program(vh::Rng& rng, std::string& descr, bool io, int force_ki
     u16 en[3] = {0, 0, 0}, ven = 0;
     std::vector<unsigned> irqs = {10u, 9u, 14u, 3u, 11u};
     if (dmak) irqs.push_back(15u);
+    // one program in five is about several sources raised by ONE trigger write: sources 3, 9 and 14 are vectored, each with
+    // its own context-switch flag (mostly set on the lower ones, mostly clear on the highest), the trigger names two or three
+    bool multi = rng.chance(1, 5);
     for (unsigned irq : irqs) {
         // (c == 5: the source is routed nowhere -- its request bit rises, the core sleeps on)
         unsigned c = flavour == 2 ? (rng.chance(1, 5) ? 5 : rng.chance(1, 2) ? 3 : rng.below(3)) : flavour == 3 ? (rng.chance(1, 2) ? 5 : rng.below(5)) : rng.below(6);
+        if (multi && (irq == 3 || irq == 9 || irq == 14)) c = rng.chance(3, 4) ? 3 : 4;
         if (c < 3) en[c] |= 1u << irq;
         else if (c == 3) ven |= 1u << irq;
         else if (c == 4) { en[rng.below(3)] |= 1u << irq; ven |= 1u << irq; }
     }
     for (int i = 0; i < 3; ++i) p.mmio_write(0x206 + 2 * i, en[i]);
     p.mmio_write(0x20C, ven);
+    // one program in four gives every source its own context-switch flag (the vector is shared): what a trigger of several
+    // sources at once hands to the core is then observable (address and flag of the HIGHEST raised source)
+    bool mixed_ctx = rng.chance(1, 4);
     for (unsigned irq : irqs) {
-        p.mmio_write(0x212 + 4 * irq, (VEC >> 16) | (vctx ? 0x8000 : 0));
+        bool cx = multi ? (irq == 14 ? rng.chance(1, 4) : rng.chance(3, 4)) : mixed_ctx ? rng.chance(1, 2) : vctx;
+        p.mmio_write(0x212 + 4 * irq, (VEC >> 16) | (cx ? 0x8000 : 0));
         p.mmio_write(0x214 + 4 * irq, VEC & 0xFFFF);
     }
     // timers
@@ -382,7 +404,7 @@ static Prog make_program(vh::Rng& rng, std::string& descr, bool io, int force_ki
     u16 mod3 = 0xE000 | ((flavour == 2 && rng.chance(7, 8) ? 15 : rng.below(16)) << 8) | (flavour == 2 || rng.chance(4, 5) ? 0x80 : 0);
     for (int i = 0; i < 3; ++i) if (use_ctx[i]) mod3 |= 1u << (1 + i);
     p.mov_imm_sttmod(mod3, 7);
-    if (rng.chance(1, 3)) p.mmio_write(0x204, 1u << 3);         // software trigger
+    if (multi || rng.chance(1, 3)) p.mmio_write(0x204, soft_trigger(rng, multi));         // software trigger
     for (int i = 0; i < 2; ++i) if (late_en[i]) p.mmio_write(0x2BE + 0x80 * i, late_en[i]);
     // body
     unsigned kind = force_kind >= 0 ? (unsigned)force_kind : dmak ? 10 : io ? 6 + rng.below(4) : rng.below(6);
@@ -480,7 +502,7 @@ static Prog make_program(vh::Rng& rng, std::string& descr, bool io, int force_ki
         emit_dma_body(p, rng);
         break;
     default: // software-triggered interrupts in a loop
-        p.mmio_write(0x204, 1u << (rng.chance(1, 2) ? 3 : 14));
+        p.mmio_write(0x204, soft_trigger(rng, multi));
         p.inc(0);
         p.brr(-7);
         break;
